@@ -518,6 +518,11 @@ func TestC05(t *testing.T) {
 		nblocks := 1
 		if mode != "struct" {
 			nblocks = gen.Int(t, 1, 4, "nblocks")
+			if gen.Chance(t, 4, "manyblocks") {
+				// hundreds of constants in one input (constant indices beyond one byte)
+				nblocks = gen.Int(t, 40, 120, "manyblocks-n")
+				feat["many-blocks"]++
+			}
 		}
 		vals := make([]reflect.Value, nblocks)
 		for i := range vals {
